@@ -28,7 +28,7 @@ Qed.
 
 Lemma T_ext e e' : ext e e' -> T e -> T e'.
 Proof.
-  intros X (H1 & H2 & H3). pose proof X as (_ & (l & Tl & Fl) & _).
+  intros X (H1 & H2 & H3). pose proof X as (_ & (l & Tl & Fl & _) & _).
   destruct (fires_noncore l Fl) as [Fn Fo]. split; [|split].
   - rewrite Tl, forallb_app, H1, Fo. reflexivity.
   - rewrite Tl, fires_app, Fn, app_nil_r. exact H2.
@@ -39,10 +39,11 @@ Proof. rewrite tk_set_state. destruct (Nat.eqb_spec t i); simpl; [subst|reflexiv
 Lemma T_set_state site e i s : T e -> T (set_state site e i s).
 Proof.
   intros (H1 & H2 & H3).
+  destruct (Nat.lt_ge_cases i (length (tasks e))) as [Hlt | Hge]; [|rewrite (set_state_oob _ _ _ _ Hge); now repeat split].
   assert (Ef : fires (trace (set_state site e i s)) = fires (trace e)).
-  { rewrite trace_set_state, fires_app. simpl. apply app_nil_r. }
+  { rewrite trace_set_state, fires_app by assumption. simpl. apply app_nil_r. }
   split; [|split].
-  - rewrite trace_set_state, forallb_app, H1. reflexivity.
+  - rewrite trace_set_state, forallb_app, H1 by assumption. reflexivity.
   - rewrite Ef. exact H2.
   - intros t on Hin. rewrite Ef in Hin. rewrite tmo_set_state. now apply H3.
 Qed.
